@@ -131,7 +131,7 @@ func GenRoots(g G, w *World) []RootArg {
 	}
 	var out []RootArg
 	for i := 0; i < n && len(stored) > 0; i++ {
-		switch g.Pick(6, "rootkind") {
+		switch g.Pick(7, "rootkind") {
 		case 0, 1: // raw oid
 			o := stored[g.Pick(len(stored), "rootobj")]
 			out = append(out, RootArg{Expr: o.ID, OID: o.ID})
@@ -201,6 +201,27 @@ func GenRoots(g G, w *World) []RootArg {
 			}
 			if x != nil {
 				out = append(out, RootArg{Expr: t.ID + "^{}", OID: x.ID})
+			}
+		case 6: // <tree-ish>: with an empty path (a commit, tree or tag followed by a bare colon)
+			var ts []*Object
+			for _, o := range stored {
+				if o.Kind == KCommit || o.Kind == KTree || o.Kind == KTag {
+					ts = append(ts, o)
+				}
+			}
+			if len(ts) == 0 {
+				continue
+			}
+			x := ts[g.Pick(len(ts), "rootcolon")]
+			start := x
+			for x != nil && x.Kind == KTag {
+				x = w.Get(DecodeTag(x.Body).Object)
+			}
+			if x != nil && x.Kind == KCommit {
+				x = w.Get(DecodeCommit(x.Body).Tree)
+			}
+			if x != nil && x.Kind == KTree {
+				out = append(out, RootArg{Expr: start.ID + ":", OID: x.ID})
 			}
 		}
 	}
